@@ -25,6 +25,12 @@ TRUSTED = ['Model/Format.lean (formatKevent / formatTrace / formatCallstack / fo
            'inlined), the interpreter as semantics of that subset (tested against CPython by the sections *-ir), the format '
            'primitives of Model/Format as the meaning of the format specifications; outside the tie: the wall-clock branch of '
            '_format_timestamp (opaque node wallClock), str(trace), str(uuid), strftime, pygments, termcolor',
+           'how the switches get their values is tied to the SOURCE TEXT too: tools/gen_pyir_cli.py translates the printing commands of '
+           '__main__.py (option declarations: --show-tid/--no-show-tid default False, --color/--no-color default True on traces only), '
+           'PyKdebugParser.__init__ (show_* and color defaults, the wall-clock parameters None) and the formatted_* maps into the IR of '
+           'Model/PyIRCli; cli_source_is_expected_ir, kevents / traces / callstacks / logs _lines_ir_eq_model compose translated '
+           'command + translated map + translated builder; trusted for that: that translator and interpreter (sections cli-glue, '
+           'cli-decls, cli-init, cli-formatted test them against click / CPython) and click\'s parsing of the command line',
            "Python format specifications (f'{s:<58}', f'{n:>11}', f'{n:016x}', hex(), str(int), bytes.__repr__) "
            'modelled in Model/Format.lean and diffed against CPython in section format-primitives',
            'DgbFuncQual reflected into Gen/Enums.lean',
@@ -979,6 +985,8 @@ def correspondence(rep, rng, tier):
         rep.notes.append('termcolor emitted no escape sequences even with FORCE_COLOR: colour-on log lines were compared '
                          'as plain text only')
         rep.broken.append('log-lines: colour could not be forced (termcolor emitted no escapes)')
+    from .. import cliir                            # --show-tid / --color from the command line to the line builders
+    cliir.section(rep, rng, tier, 'C14', commands=cliir.PRINTING, emphasis=('show_tid', 'color'))
 
 
 SECTIONS = {
@@ -1000,6 +1008,9 @@ def replay(path):
     if 'replay' not in r:
         print(json.dumps(r, indent=1)[:4000])
         return 1
+    if r['replay'].get('section') in ('cli-glue', 'cli-pwc-raise', 'cli-decls', 'cli-init', 'cli-formatted'):
+        from .. import cliir
+        return cliir.replay(r['replay'], 'C14', path)
     if r['replay'].get('section') == 'scenario-history':
         from .. import scenhist
         bad, lines = scenhist.replay(r['replay'])
@@ -1056,11 +1067,18 @@ LEVEL_TEXT = ('Translation tie: source_is_expected_ir (the methods translated fr
               'process column is processSpec of declaredTables of the prefix ending with its trigger event), e2e_unreadable. '
               'Model also tied to the code by differential runs of formatted_kevents / formatted_traces / _format_callstack / '
               '_format_log for all 64 settings, colour on and off, and of the Python format primitives; the same runs are '
-              'repeated through the GENERATED IR (sections *-ir).')
+              'repeated through the GENERATED IR (sections *-ir). '
+              'From the command line to the line, everything in between translated from the source (tools/gen_pyir_cli.py -> '
+              'Gen/PyIRCli): cli_source_is_expected_ir, kevents_lines_ir_eq_model / traces_lines_ir_eq_model / '
+              'callstacks_lines_ir_eq_model / logs_lines_ir_eq_model (translated command + translated __init__ + translated formatted_* '
+              'map + translated _format_*: the lines printed are print_with_count of formatKevent / formatTrace / formatCallstack / '
+              'formatLog over whatever the listing delivers, with the thread-id column exactly as --show-tid says, the highlighter '
+              'exactly as --color / --no-color says (traces), colour on for logs, every other column on).')
 LEVEL_NOTE = ('Partial: colour transparency of trace lines assumes the highlighter can be erased (pygments rewrites carriage '
               'returns and edge newlines: known finding K7); the wall-clock branch of _format_timestamp is outside the '
               'model and outside the translation tie (opaque node). Trusted: Lean kernel, the translator tools/gen_pyir_fm.py and '
               'the interpreter of Model/PyIRFm (diffed against CPython through the generated IR), the hand-written model of '
-              'Python format specs (diffed), pygments/termcolor as external.')
+              'Python format specs (diffed), pygments/termcolor as external. Glue: trusted are tools/gen_pyir_cli.py, the interpreter '
+              'Model/PyIRCli and click\'s parsing; the listing behind each map is a parameter of the *_lines_ir_eq_model theorems.')
 TECHNIQUE = ('Lean 4 proof (source text of the builders -> IR by translation, IR interpreted = model; builders = join of enabled '
              'columns, by cases on the six switches) + differential correspondence (hand model and generated IR)')
